@@ -323,10 +323,12 @@ class AsyncPolicy:
         on_end: AttemptHook | None,
     ) -> RetryOutcome[T]:
         """Execute single async attempt without retry."""
+        invoked = False
         try:
             if on_start is not None:
                 on_start(make_attempt_context(1, ctx.operation, ctx.elapsed()))
 
+            invoked = True
             result = await func()
 
         except AbortRetryError as exc:
@@ -342,7 +344,7 @@ class AsyncPolicy:
                         stop_reason=StopReason.ABORTED,
                     )
                 )
-            return build_aborted_outcome(ctx)
+            return build_aborted_outcome(ctx, attempts=1 if invoked else 0)
 
         except asyncio.CancelledError:
             record_cancel(ctx)
